@@ -21,9 +21,12 @@ CONSTANTS
   WeightAliasesParam, \* TRUE for NaiveLinear: weight() returns the Parameter itself
   LadSaves,           \* TRUE iff the autograd graph of logabsdet() saves tensors
                       \* (FALSE for QRLinear: sum(log_upper_diag) saves nothing)
-  LoadInvalidates,    \* design: _load_from_state_dict drops the cache
-  ApplyInvalidates,   \* design: _apply (dtype / device conversion) drops the cache
-  TrainInvalidates,   \* design: train(True) drops the cache
+  \* design switches, each a non-empty subset of BOOLEAN: {TRUE} = the step drops the cache (the
+  \* repaired design), {FALSE} = it never does, {TRUE, FALSE} = either (permissive model: the
+  \* over-approximation of all designs that the conformance walk follows on the real code)
+  LoadInvalidates,    \* _load_from_state_dict
+  ApplyInvalidates,   \* _apply (dtype / device conversion)
+  TrainInvalidates,   \* train(True)
   WithInplace         \* extend the alphabet by in-place parameter edits in eval mode
 
 VARIABLES training, usingCache, dt, cw, ci, cl, res
@@ -55,7 +58,7 @@ Invalidate == cw' = None /\ ci' = None /\ cl' = None
 
 Train ==
   /\ training' = TRUE
-  /\ IF TrainInvalidates THEN Invalidate ELSE UNCHANGED <<cw, ci, cl>>
+  /\ \E inv \in TrainInvalidates : IF inv THEN Invalidate ELSE UNCHANGED <<cw, ci, cl>>
   /\ res' = [k |-> "train"]
   /\ UNCHANGED <<usingCache, dt>>
 
@@ -116,8 +119,9 @@ OptStep ==
 
 \* load_state_dict with different parameter values (copy_ into the parameters)
 Load ==
-  /\ IF LoadInvalidates THEN Invalidate
-     ELSE cw' = Poison(cw) /\ ci' = Poison(ci) /\ cl' = Poison(cl)
+  /\ \E inv \in LoadInvalidates :
+       IF inv THEN Invalidate
+       ELSE cw' = Poison(cw) /\ ci' = Poison(ci) /\ cl' = Poison(cl)
   /\ res' = [k |-> "load"]
   /\ UNCHANGED <<training, usingCache, dt>>
 
@@ -131,9 +135,10 @@ InplaceEdit ==
 \* module.double() / module.float(): nn.Module._apply converts parameters in place
 ToDtype(d) ==
   /\ dt' = d
-  /\ IF ApplyInvalidates THEN Invalidate
-     ELSE /\ cw' = (IF cw.filled /\ cw.g = "leaf" THEN [cw EXCEPT !.d = d] ELSE cw)
-          /\ UNCHANGED <<ci, cl>>
+  /\ \E inv \in ApplyInvalidates :
+       IF inv THEN Invalidate
+       ELSE /\ cw' = (IF cw.filled /\ cw.g = "leaf" THEN [cw EXCEPT !.d = d] ELSE cw)
+            /\ UNCHANGED <<ci, cl>>
   /\ res' = [k |-> "to"]
   /\ UNCHANGED <<training, usingCache>>
 
